@@ -1,0 +1,30 @@
+//go:build verif
+
+package container
+
+import (
+	"errors"
+	"syscall"
+	"time"
+
+	"github.com/criyle/go-sandbox/runner"
+)
+
+// ConvertReplyVerif exposes convertReply followed by convertReplyResult for
+// the verification harness (build tag verif only).
+func ConvertReplyVerif(ws syscall.WaitStatus, ru syscall.Rusage, waitErr string, sockErr string, noReply bool) runner.Result {
+	ret := waitPidResult{WaitStatus: ws, Rusage: ru}
+	if waitErr != "" {
+		ret.Err = errors.New(waitErr)
+	}
+	var err error
+	if sockErr != "" {
+		err = errors.New(sockErr)
+	}
+	rep := convertReply(ret)
+	if noReply {
+		rep = reply{}
+	}
+	now := time.Now()
+	return convertReplyResult(rep, now, now, err)
+}
